@@ -9,6 +9,7 @@ Expression trees (tuples):
 `broad` trees (outside the Lean fragment; the reference value comes from this module) additionally:
     ("str", text)  ("bin", bits)  ("real", text)  ("const", "PI"|"CONST_E"|"UNKNOWN"|"?")
     ("typeof", "SCHEMA.TYPE")  = `'SCHEMA.TYPE' IN TYPEOF(SELF)`  and the operator div
+    ("l3", "and"|"or"|"xor", x, y)  ("l3", "not", x)   the logical operators over LOGICAL attributes that may be UNKNOWN
 
     b = gen(rng, idx, …)    -> Body
     b.express()             -> EXPRESS source
@@ -47,6 +48,8 @@ def express_of(t):
         return t[1]
     if k == "typeof":
         return "('" + t[1] + "' IN TYPEOF(SELF))"
+    if k == "l3":
+        return "(NOT " + express_of(t[2]) + ")" if t[1] == "not" else "(" + express_of(t[2]) + " " + t[1].upper() + " " + express_of(t[3]) + ")"
     if k == "u":
         return "(" + ("NOT " if t[1] == "not" else "-") + express_of(t[2]) + ")"
     op = {**INT_OPS, **CMP_OPS, **BOOL_OPS, **BROAD_INT_OPS}[t[1]]
@@ -147,6 +150,8 @@ class Body:
     def __init__(self, name, ent, ints, bools, derived, rules, broad=False):
         self.name, self.ent, self.ints, self.bools, self.derived, self.rules, self.broad = name, ent, ints, bools, derived, rules, broad
 
+    logicals = ()    # LOGICAL attributes (after the BOOLEAN ones); their values: True / False / "U" (UNKNOWN)
+    fixed_envs = None
     supers = ()      # [(entity, its supertype | None), …] declared before `ent`; `ent` is then a subtype of the last one
 
     def express(self):
@@ -154,7 +159,7 @@ class Body:
         for n, sup in self.supers:
             out += [f"ENTITY {n}" + (f" SUBTYPE OF ({sup})" if sup else "") + ";", "END_ENTITY;"]
         out.append(f"ENTITY {self.ent}" + (f" SUBTYPE OF ({self.supers[-1][0]})" if self.supers else "") + ";")
-        out += [f"  {a} : INTEGER;" for a in self.ints] + [f"  {a} : BOOLEAN;" for a in self.bools]
+        out += [f"  {a} : INTEGER;" for a in self.ints] + [f"  {a} : BOOLEAN;" for a in self.bools] + [f"  {a} : LOGICAL;" for a in self.logicals]
         if self.derived:
             out.append("DERIVE")
             out += [f"  {n} : {ty} := {express_of(t)};" for n, ty, t in self.derived]
@@ -169,7 +174,7 @@ class Body:
 
     def copy(self):
         b = Body(self.name, self.ent, list(self.ints), list(self.bools), list(self.derived), list(self.rules), self.broad)
-        b.supers = self.supers
+        b.supers, b.logicals, b.fixed_envs = self.supers, self.logicals, self.fixed_envs
         return b
 
     def lines(self):
@@ -261,6 +266,13 @@ def fixed_bodies():
                                                 ("d3", "REAL", ("real", "1.23456789")), ("d4", "REAL", ("real", "0.1"))], [], broad=True))
     out.append(Body("fx_const", "e", ["a"], [], [("d1", "REAL", ("const", "CONST_E")), ("d2", "REAL", ("const", "PI")),
                                                  ("d3", "LOGICAL", ("const", "UNKNOWN")), ("d4", "INTEGER", ("const", "?"))], [], broad=True))
+    # LOGICAL operands that may be UNKNOWN: every operator on every pair of TRUE / FALSE / UNKNOWN
+    p_, q_ = ("a", "p"), ("a", "q")
+    b = Body("fx_logical", "e", ["a"], [], [("d_and", "LOGICAL", ("l3", "and", p_, q_)), ("d_or", "LOGICAL", ("l3", "or", p_, q_)),
+                                            ("d_xor", "LOGICAL", ("l3", "xor", p_, q_)), ("d_not", "LOGICAL", ("l3", "not", p_))], [], broad=True)
+    b.logicals = ["p", "q"]
+    b.fixed_envs = [{"a": 1, "p": x, "q": y} for x in (True, False, "U") for y in (True, False, "U")]
+    out.append(b)
     # TYPEOF: names qualified by the schema, every supertype included (fx_typeof.e is a subtype of mid, mid of root)
     b = Body("fx_typeof", "e", ["a"], [], [("d1", "BOOLEAN", ("typeof", "FX_TYPEOF.E")), ("d2", "BOOLEAN", ("typeof", "FX_TYPEOF.MID")),
                                            ("d3", "BOOLEAN", ("typeof", "FX_TYPEOF.ROOT")), ("d4", "BOOLEAN", ("typeof", "FX_TYPEOF.NOPE")),
@@ -278,3 +290,16 @@ def environments(rng, body, n):
         env.update({a: rng.random() < 0.5 for a in body.bools})
         envs.append(env)
     return envs
+
+
+def l3_value(t, env):
+    """ISO 10303-11 12.4: NOT AND OR XOR on TRUE / FALSE / UNKNOWN ("U")"""
+    x = env[t[2][1]]
+    if t[1] == "not":
+        return "U" if x == "U" else (not x)
+    y = env[t[3][1]]
+    if t[1] == "and":
+        return False if (x is False or y is False) else ("U" if "U" in (x, y) else True)
+    if t[1] == "or":
+        return True if (x is True or y is True) else ("U" if "U" in (x, y) else False)
+    return "U" if "U" in (x, y) else (x != y)
